@@ -477,6 +477,28 @@ func runC07(ctx *core.Ctx) {
 			ctx.Check(ok, "A3", "lockedfile.Transform#rollback", rb.Pos(), "the roll-back is registered before every overwrite of existing bytes")
 		}
 		// overwrite branches: grow/equal writes new[:len(old)]; shrink writes new then truncates to len(new) after success
+		// what is written is the whole of new whenever len(new) < len(old): new itself, new[:len(new)],
+		// or new[:min(len(new), len(old))]
+		wholeNewWhenShrinking := func(v ssa.Value) bool {
+			if v == newV {
+				return true
+			}
+			sl, ok := v.(*ssa.Slice)
+			if !ok || sl.X != newV || sl.Max != nil {
+				return false
+			}
+			if z, isZ := ssax.ConstInt(orZero(sl.Low)); !isZ || z != 0 {
+				return false
+			}
+			if sl.High == nil || lenNew(sl.High) {
+				return true
+			}
+			if c, isC := sl.High.(*ssa.Call); isC && isBuiltinCall(c, "min") && len(c.Call.Args) == 2 {
+				a, b := c.Call.Args[0], c.Call.Args[1]
+				return (lenNew(a) && lenOld(b)) || (lenNew(b) && lenOld(a))
+			}
+			return false
+		}
 		shrinkOK := false
 		for _, t := range truncs {
 			if !lenNew(t.Call.Args[1]) {
@@ -484,7 +506,7 @@ func runC07(ctx *core.Ctx) {
 			}
 			// dominated by a successful overwrite of `new`
 			for _, o := range overwrites {
-				if len(o.Call.Args) >= 3 && o.Call.Args[1] == newV && g.Dominates(o, t) && ssax.KnownNil(g.FactsAtInstr(t), ssax.Extracted(o, 1), true) {
+				if len(o.Call.Args) >= 3 && wholeNewWhenShrinking(o.Call.Args[1]) && g.Dominates(o, t) && ssax.KnownNil(g.FactsAtInstr(t), ssax.Extracted(o, 1), true) {
 					shrinkOK = cmpFact(g.FactsAtInstr(t), token.LSS, lenNew, lenOld)
 				}
 			}
@@ -515,7 +537,7 @@ func runC07(ctx *core.Ctx) {
 					continue
 				}
 				rv := ssax.ReturnValues(r)[0]
-				if rv != ce && ssax.ResolveLoad(rv) != ce {
+				if rr := g.Resolve(ssax.Strip(rv), r); rv != ce && ssax.ResolveLoad(rv) != ce && rr != ce && ssax.ResolveLoad(rr) != ce {
 					retOK = false
 				}
 			}
